@@ -28,7 +28,7 @@ partial def pathsGo (a : Abs) (arr : Array (Option String)) (n : Id) (path : Str
 
 /-- position of every attached node (first occurrence in preorder) -/
 def pathsOf (a : Abs) : Array (Option String) :=
-  (a.roots.zipIdx.foldl (fun arr (r, i) => pathsGo a arr r (toString i) 64)
+  (a.roots.zipIdx.foldl (fun arr (r, i) => pathsGo a arr r (toString i) 600)
     (Array.replicate a.heap.length none))
 
 def fnv (h : UInt64) (bs : List UInt8) : UInt64 :=
@@ -72,7 +72,7 @@ partial def digest (a : Abs) : UInt64 :=
       let h := fnv h (a.ptr n)
       let h := fnv h [10]
       (a.kids n).foldl (fun h c => go h c (d + 1) fuel) h
-  a.roots.foldl (fun h r => go h r 0 64) 14695981039346656037
+  a.roots.foldl (fun h r => go h r 0 600) 14695981039346656037
 
 def probeTags (a : Abs) (r : Id) : List Str :=
   if a.tag r == tINDI then [tNAME, tBIRT, tDEAT, tFAMS, tFAMC]
